@@ -57,10 +57,22 @@ class World:
 
 def flat_events(evs):
     for e in evs:
-        if e[0] == 'merged-branch-events':
+        if e[0] in ('merged-branch-events', 'pure-branch-events'):
             yield from flat_events(e[1])
         else:
             yield e
+
+
+def events_with_cond(evs, cond=None):
+    """(event, condition under which it happened) - events of closures executed by the iterator/Option models carry the closure path's condition"""
+    for e in evs:
+        if e[0] == 'merged-branch-events':
+            yield from events_with_cond(e[1], cond)
+        elif e[0] == 'pure-branch-events':
+            c2 = e[2] if cond is None else z3.And(cond, e[2])
+            yield from events_with_cond(e[1], c2)
+        else:
+            yield e, (cond if cond is not None else z3.BoolVal(True))
 
 
 def zint(x):
@@ -172,6 +184,11 @@ class Ob:
         self.unknown += 1
         self.notes.append(f'UNKNOWN {label} ({s.reason_unknown()})')
         return 'unknown'
+
+    def structural(self, label, role, model=None):
+        """a required guard / call is ABSENT on an accepting path of the real code: counterexample at the encoding level (the trace is the artefact)"""
+        self.queries += 1; self.sat += 1
+        self.cex.append({'ob': self.oid, 'label': label, 'role': role, 'model': model or {}, 'replay': None})
 
     def witness(self, eng, r, hyps, label='reach', timeout=30000):
         """vacuity guard: hyps ∧ pc must be satisfiable"""
